@@ -89,6 +89,7 @@ func runChunk(bin, prop string, seed uint64, from, to int, order string, extra .
 	args := []string{"-prop", prop, "-seed", strconv.FormatUint(seed, 10), "-from", strconv.Itoa(from), "-to", strconv.Itoa(to),
 		"-order", order, "-tier", tierName}
 	args = append(args, extra...)
+	args = append(args, extraArgs...)
 	cmd := exec.Command(bin, args...)
 	cmd.Env = append(os.Environ(), "GOMAXPROCS="+gomaxprocs, "GORACE=halt_on_error=1 exitcode=66 atexit_sleep_ms=0 history_size=3")
 	var stderr bytes.Buffer
